@@ -55,7 +55,7 @@ func vfThreeRows() align.Alignment {
 // H_C08_sched_distmatrix: all interleavings (bounded preemption) of producer and workers give the matrix of the stub.
 // bounds: 3 rows (3 pairs), cpus in {1,2}, distances concrete 1/4, 1/2, 3/4 (all defined), preemption bound 2, context switches only at synchronisation operations (channel, mutex, waitgroup, go)
 // outside: more than 2 workers / 3 pairs, preemption between two non-synchronising instructions (covered by the happens-before race check instead)
-//verif: sched=1 race=1 preempt=1
+//verif: sched=1 race=1 preempt=2
 func H_C08_sched_distmatrix() {
 	cpus := nondetRange(1, 2)
 	m := &vfStubModel{n: 3, failAt: -1, vals: [3]float64{0.25, 0.5, 0.75}}
@@ -76,7 +76,7 @@ func H_C08_sched_distmatrix() {
 // H_C08_sched_error_returns: when the evaluation of one pair fails, every interleaving returns, with the error.
 // bounds: 3 rows, cpus in {1,2}, failing pair = any of the 3, preemption bound 2
 // outside: as H_C08_sched_distmatrix
-//verif: sched=1 race=1 preempt=1
+//verif: sched=1 race=1 preempt=2
 func H_C08_sched_error_returns() {
 	cpus := nondetRange(1, 2)
 	failAt := nondetRange(0, 2)
@@ -88,7 +88,7 @@ func H_C08_sched_error_returns() {
 
 // H_C08_sched_undefined: pairs with undefined distances are replaced by a common substitute in every schedule.
 // bounds: 3 rows, cpus in {1,2}, distances 1/4, -1 (undefined), 3/4; preemption bound 2
-//verif: sched=1 race=1 preempt=1
+//verif: sched=1 race=1 preempt=2
 func H_C08_sched_undefined() {
 	cpus := nondetRange(1, 2)
 	m := &vfStubModel{n: 3, failAt: -1, vals: [3]float64{0.25, -1, 0.75}}
